@@ -54,7 +54,7 @@ def readers_alive_together(p, expect):
     f = framing.build_frame(p)
     opts = [1, 2, 0, True, 2, 1]
     # keyword and positional spelling (documented order: datastream, validate, quitonerror, labelmsm, ...)
-    readers = [RTCMReader(io.BytesIO(f + f), labelmsm=lm, quitonerror=2, validate=k % 2) if k % 3 else RTCMReader(io.BytesIO(f + f), k % 2, 2, lm) for k, lm in enumerate(opts)]
+    readers = [RTCMReader(io.BytesIO(f + f), labelmsm=lm, quitonerror=2, validate=k % 2) if k % 2 == 0 else RTCMReader(io.BytesIO(f + f), (k // 2) % 2, 2, lm) for k, lm in enumerate(opts)]
     for lm, rdr in zip(opts, readers):
         got = list(rdr)
         if len(got) != 2:
